@@ -105,7 +105,7 @@ impl Module for Node {
     }
 }
 
-const NDL_DOC: &str = "entry: Main\nmodules:\n  Main:\n    submodules:\n      a: Leaf\n      b: Leaf\n      c: Leaf\n      d[3]: Leaf\n    connections:\n    - peers:\n      - a/p[0]\n      - b/p[0]\n      link: L\n    - peers:\n      - b/p[1]\n      - c/p[0]\n      link: L\n    - peers:\n      - d/p[0]\n      - d/p[1]\n      link: L\n  Leaf:\n    gates:\n    - p[2]\nlinks:\n  L:\n    latency: 0.002\n    jitter: JIT\n    bitrate: 1000000\n    queuesize: \"1000\"\n";
+const NDL_DOC: &str = "entry: Main\nmodules:\n  Main:\n    submodules:\n      a: Leaf\n      b: Leaf\n      c: Leaf\n      d[3]: Leaf\n    connections:\n    - peers:\n      - a/p[0]\n      - b/p[0]\n      link: L\n    - peers:\n      - b/p[1]\n      - c/p[0]\n      link: L\n    - peers:\n      - d/p[0]\n      - d/p[1]\n      link: L\n    - peers:\n      - a/q\n      - c/q\n      link: L\n    - peers:\n      - a/r\n      - b/r\n      link: L\n    - peers:\n      - c/r\n      - d[0]/s\n      link: L\n    - peers:\n      - b/s\n      - d[1]/q\n      link: L\n  Leaf:\n    gates:\n    - p[2]\n    - q\n    - r\n    - s\nlinks:\n  L:\n    latency: 0.002\n    jitter: JIT\n    bitrate: 1000000\n    queuesize: \"1000\"\n";
 
 fn run(model: Model, seed: u64) -> Result<String, String> {
     quiet_catch(move || {
@@ -207,7 +207,7 @@ impl Property for C04 {
     }
     fn rule(&self, tier: Tier) -> String {
         format!(
-            "grid: topology {{pair, ring of 3, star of 3 with submodules and a gate cluster, NDL-built network of 7 with a module cluster}} x channel jitter {{0, 1 ms}} x module restart at a random-drawn time on/off x extra interval/sample tasks on/off = 32 models, x seeds {:?}; \
+            "grid: topology {{pair, ring of 3, star of 3 with submodules and a gate cluster, NDL-built network of 7 with a module cluster and four gate groups per module type}} x channel jitter {{0, 1 ms}} x module restart at a random-drawn time on/off x extra interval/sample tasks on/off = 32 models, x seeds {:?}; \
              every module draws random() in handlers and tasks, runs an unbiased 4-way select! over equal deadlines and a receive, and sends over random subsets of its gates; each (model, seed) is run by two different worker processes, in each of them twice (the second time after other simulations ran in that process); \
              the complete traces (time, module path, callback, message kind/id, drawn values, select branch, tick times, final time, event count, result) must be identical in all four executions; per model the traces of different seeds must differ; \
              a case is one (model, seed); non-trivial = every case (all draw randomness)",
